@@ -25,7 +25,15 @@ func HarnessC12() {
 		},
 		Required: []string{"second", "first"},
 	}
-	shape := zzvrt.Choice(zzvrt.Param("SHAPES", 2))
+	shape := zzvrt.Choice(zzvrt.Param("SHAPES", 3))
+	if shape == 2 {
+		// definition names that differ only in letter case (they map to the same Go name, so
+		// the order in which they are visited decides who gets the plain name)
+		defs["item"] = &schemas.Type{Type: schemas.TypeList{"object"}, Properties: map[string]*schemas.Type{"id": {Type: schemas.TypeList{"string"}}}, Required: []string{"id"}}
+		defs["Item"] = &schemas.Type{Type: schemas.TypeList{"object"}, Properties: map[string]*schemas.Type{"count": {Type: schemas.TypeList{"integer"}}}}
+		root.Properties["fourth"] = &schemas.Type{Ref: "#/$defs/item"}
+		root.Properties["fifth"] = &schemas.Type{Ref: "#/$defs/Item"}
+	}
 	cfg := Config{DefaultPackageName: "example.com/gen", DefaultOutputName: "root.go", Warner: func(string) {},
 		Tags: []string{"json", "yaml", "mapstructure"}}
 	if shape == 1 {
@@ -62,6 +70,6 @@ func HarnessC12() {
 		zzvrt.Emit(name, string(srcs[name]))
 	}
 	zzvrt.Emit("output-names", names)
-	zzvrt.Cover("shape:" + []string{"single-file", "two-files"}[shape])
+	zzvrt.Cover("shape:" + []string{"single-file", "two-files", "case-colliding-definitions"}[shape])
 	zzvrt.Check("C12.generates", true)
 }
